@@ -15,6 +15,10 @@
 (*                    at which arithmetic on a length, count or offset      *)
 (*                    field goes wrong (0, -1, -4, -8, min, max, and the    *)
 (*                    too small 1, 2, 3, 6; both byte orders)               *)
+(*   fuzz(i)          inputs on which Go's coverage-guided fuzzer, seeded   *)
+(*                    with the corpus, saw a panic, a slow or a large call  *)
+(*                    or lost its worker (an input generator: the inputs    *)
+(*                    are executed and judged like all others)              *)
 (*   line(i,r)        krb5.conf: every line replaced by / preceded by 11   *)
 (*                    structure-breaking lines                             *)
 (* "Did it panic" is an observation, not something a model decides; the    *)
@@ -23,7 +27,7 @@
 (*   Outcome \in {value, error}, alloc <= 64 * len + 1 MiB, time <= 2 s.    *)
 (***************************************************************************)
 EXTENDS Integers, Sequences, FiniteSets, TLC
-Classes == {"valid", "truncate", "substitute", "setlen", "setword", "line"}
+Classes == {"valid", "truncate", "substitute", "setlen", "setword", "line", "fuzz"}
 AllowedOutcomes == {"value", "error"}
 AllocBoundPermille == 1000                \* observed allocation / (64 * len + 1 MiB), in thousandths
 TimeBoundMs == 2000
